@@ -30,24 +30,36 @@ def valStr : Option Bytes → String
 def propsStr (d : Txt.Props) : String :=
   s!"{d.length}" ++ String.join (d.map (fun e => s!" {hexOfBytes e.1} {valStr e.2}"))
 
-def entry : Tok (Bytes × Option Bytes) := do
+def pyVal (isStr : Bool) (b : Bytes) : Txt.PyVal := if isStr then .str b else .bytes b
+
+def entry : Tok (Txt.PyVal × Option Txt.PyVal) := do
+  let ks ← Tok.bool
   let k ← Tok.bytes
   let has ← Tok.bool
+  let vs ← Tok.bool
   let v ← Tok.bytes
-  pure (k, if has then some v else none)
+  pure (pyVal ks k, if has then some (pyVal vs v) else none)
 
-/-- `c19t <containsStr01> <n> (<key> <hasValue01> <value>)*` →
-`ok <text> L <properties> R <rfc parse | bad>` | `err <Exception>` -/
+/-- an observed key/value: bytes as hex; a `str` (which `.properties` must never contain) tagged -/
+def pyTok : Txt.PyVal → String
+  | .bytes b => hexOfBytes b
+  | .str u => "!str:" ++ hexOfBytes u
+
+def pyDictStr (d : Txt.PyDict) : String :=
+  s!"{d.length}" ++ String.join (d.map (fun e => s!" {pyTok e.1} " ++ (match e.2 with | none => "N" | some v => pyTok v)))
+
+/-- `c19t <n> (<keyIsStr01> <key> <hasValue01> <valueIsStr01> <value>)*` (str keys/values as their UTF-8 bytes) →
+`ok <text> L <.properties> D <library decode of text> R <rfc parse | bad>` | `err <Exception>` -/
 def c19t (toks : List String) : String :=
-  match (do let cs ← Tok.bool; let ps ← Tok.list entry; Tok.done; pure (cs, ps) : Tok (Bool × Txt.Props)).run toks with
-  | some ((cs, ps), _) =>
-    match Txt.encode ps with
+  match (do let d ← Tok.list entry; Tok.done; pure d : Tok Txt.PyDict).run toks with
+  | some (d, _) =>
+    match Txt.setProperties d with
     | .error e => s!"err {e.name}"
-    | .ok text =>
+    | .ok (text, obs) =>
       let rfc := match Txt.Spec.parse text with
         | some d => propsStr d
         | none => "bad"
-      s!"ok {hexOfBytes text} L {propsStr (Txt.propertiesObs cs ps text)} D {propsStr (Txt.decodeLib text)} R {rfc}"
+      s!"ok {hexOfBytes text} L {pyDictStr obs} D {propsStr (Txt.decodeLib text)} R {rfc}"
   | none => "bad-op"
 
 /-- `c19d <text>` → `L <library decode> R <rfc parse | bad>` -/
